@@ -9,6 +9,7 @@ mod dev;
 mod engine;
 mod findings;
 mod gen;
+mod keywords_data;
 mod lexer;
 mod ppm;
 mod props;
